@@ -66,6 +66,25 @@ Theorem c20_interval : forall s, u_closed s = false ->
 Proof. exact tick_empties. Qed.
 Print Assumptions c20_interval.
 
+(* the interval bound on the model clock (a tick is an event): after ANY history that ends with a
+   tick and leaves the stream open and not failed, nothing is buffered and every point accepted
+   before that tick - for every data id - is in a chunk; i.e. an accepted point is held for at
+   most the time until the next tick.
+   The model has no wall clock.  The same bound is checked on the REAL clock by the h-upstream
+   cases of kind rt-interval (record rt_case, predicate rt_ok in Model/Upstream.v): they run the
+   library's own time.Ticker and its own - possibly shared - policy objects (the package-level
+   default object, IntervalOnly(d), IntervalOrBufferSize(d,n); one, two and three streams on one
+   connection, with a neighbour that cuts by size faster than the interval, is closed, or resumes
+   after a link cut) and require every small accepted write to reach the broker within
+   interval + slack, where slack (150 ms quick) absorbs scheduling on a loaded machine. *)
+Theorem c20_interval_hold : forall pol rev0 ops id,
+  let r := urun (uinit pol rev0) (ops ++ [Tick]) in
+  u_closed (r_state r) = false -> u_failed (r_state r) = false ->
+  u_buf (r_state r) = [] /\
+  chunks_pts id (chunks_of (r_outs r)) = accepted_pts id (ops ++ [Tick]) (r_rets r).
+Proof. exact interval_hold. Qed.
+Print Assumptions c20_interval_hold.
+
 (* state snapshot: points reported sent + points reported buffered = points accepted *)
 Theorem c20_state_conservation : forall pol rev0 ops,
   let r := urun (uinit pol rev0) ops in
@@ -88,3 +107,19 @@ Example c20_example :
   let r := urun (uinit (PSize 4) []) ops in
   map (fun s => fst (fst s)) (r_snaps r) = [0; 0; 1; 1; 2] /\ r_rets r = [0; 0; 0; 0; 0].
 Proof. vm_compute. split; reflexivity. Qed.
+
+(* non-vacuity of c20_interval_hold: interval policy, two writes to two ids, then a tick: the stream
+   is open and not failed, and the one chunk holds both points *)
+Example c20_interval_example :
+  let ops := [Write 1 [(1,1,2)]; Write 2 [(2,2,2)]] in
+  let r := urun (uinit PInterval []) (ops ++ [Tick]) in
+  u_closed (r_state r) = false /\ u_failed (r_state r) = false /\
+  chunks_pts 2 (chunks_of (r_outs r)) = [(2,2,2)] /\ length (chunks_of (r_outs r)) = 1%nat.
+Proof. vm_compute. repeat split. Qed.
+
+(* the real-time predicate: a hold of 251 ms against interval 100 + slack 150 is refused, 250 passes *)
+Example c20_rt_example :
+  rt_ok (mkRtCase 100 150 [12; 250] true [2] [2] [2]) = true /\
+  rt_ok (mkRtCase 100 150 [12; 251] true [2] [2] [2]) = false /\
+  upx_judge (RT (mkRtCase 100 150 [12; 251] true [2] [2] [2])) = 4.
+Proof. vm_compute. repeat split. Qed.
